@@ -180,7 +180,7 @@ func runC08(c *Ctx) {
 						}
 						if bo.X == ssa.Value(ph) {
 							stepOK = true
-						} else if xp, isP := bo.X.(*ssa.Phi); isP && xp.Comment == "index" {
+						} else if xp, isP := bo.X.(*ssa.Phi); isP && vname(xp) == "index" {
 							initOK = true
 						}
 					}
